@@ -105,18 +105,18 @@ def evlog_times(ops):
         got = {}
         for (p, t, k) in ev:
             if t not in times.get(p, ()):
-                fails.append(("C17:evlog_times", "C17:evlog_actions", "event-log entry %s of process %d carries time %r, but its handlers ran at %s" % (
+                fails.append(("C17:evlog_times", "event-log entry %s of process %d carries time %r, but its handlers ran at %s" % (
                     k, p, bits_f64(t), sorted(bits_f64(x) for x in times.get(p, ())))))
                 break
             if p in last and bits_f64(t) < bits_f64(last[p]):
-                fails.append(("C17:evlog_times", "C17:evlog_actions", "event log of process %d goes back in time" % p))
+                fails.append(("C17:evlog_times", "event log of process %d goes back in time" % p))
                 break
             last[p] = t
             if k in ("MS", "LS"):
                 got[(p, k)] = got.get((p, k), 0) + 1
         else:
             if got != sent:
-                fails.append(("C17:evlog_times", "C17:evlog_actions", "sends in the event logs %s vs sends in the trace %s during one call" % (got, sent)))
+                fails.append(("C17:evlog_actions", "sends in the event logs %s vs sends in the trace %s during one call" % (got, sent)))
         # every timer operation a handler ISSUED (XCALL lines, written by the process itself) appears once in its event log
         calls = {}
         for c in o.get("calls", []):
